@@ -112,6 +112,9 @@ def gen_cases(rng, tier):
                 state = "s"
         cases.append(_case("r%d" % i, hist, rng))
         if i == 0:
+            # a provisional response overtaken by its own fork's 2xx (UDP reordering): its To-tag already owns a session, it is ignored
+            for j, h2 in enumerate((["200:a", "180:a"], ["100:-", "200:a", "183:a", "200:a", "200:b"], ["200:a", "180:a", "180:a", "200:b"], ["180:b", "200:a", "183:a", "200:b"])):
+                cases.append(_case("ov%d" % j, h2, rng))
             # "a 2xx yields an established session" - the same session whether or not a 1xx with its To-tag came first: a 2xx carrying
             # Session-Expires starts the session timer (refresh due 10 s before the interval ends) with or without `Supported: timer`
             for k, se_hdr in enumerate(("Require: timer\r\nSession-Expires: 90;refresher=uac\r\n", "Supported: timer\r\nSession-Expires: 90;refresher=uac\r\n",
